@@ -240,10 +240,12 @@ func (n *Namer) Name(rel string) string {
 		return "IT"
 	case strings.HasPrefix(rel, "oci-layout") && !strings.Contains(rel, "/"):
 		return "LT"
-	case rel == "blobs" || rel == "blobs/sha256" || rel == "ingest":
+	case rel == "blobs" || rel == "blobs/sha256" || rel == "blobs/sha512" || rel == "ingest":
 		return rel
-	case strings.HasPrefix(rel, "blobs/sha256/"):
-		if id, ok := n.ByHex[rel[len("blobs/sha256/"):]]; ok {
+	case strings.HasPrefix(rel, "blobs/sha256/") || strings.HasPrefix(rel, "blobs/sha512/"):
+		// the hex strings of the two algorithms differ in length, so one table serves both;
+		// a blob filed under the wrong algorithm directory is not recognised
+		if id, ok := n.ByHex[rel[len("blobs/sha256/"):]]; ok && (len(rel)-len("blobs/sha256/") == 128) == strings.HasPrefix(rel, "blobs/sha512/") {
 			return "B" + strconv.Itoa(id)
 		}
 	case strings.HasPrefix(rel, "ingest/"):
